@@ -482,6 +482,8 @@ type fakeConn struct {
 	wok    bool
 	out    bytes.Buffer
 	closes int
+	// lateWrites counts the writes attempted after Close (they fail).
+	lateWrites int
 	// buf is the first octet of the buffer the server read a message body into.
 	buf *byte
 	// steps (non-sequential mode): the k-th Read returns at most steps[k mod len]
@@ -568,6 +570,12 @@ func (c *fakeConn) Write(p []byte) (n int, err error) {
 	}
 	if !c.wok {
 		return 0, io.ErrClosedPipe
+	}
+	if c.closes > 0 {
+		// Like a socket: what is written after Close reaches nobody.
+		c.lateWrites++
+
+		return 0, net.ErrClosed
 	}
 
 	return c.out.Write(p)
@@ -768,6 +776,33 @@ func (e *env) reset() {
 	e.dlv, e.dlvEnd, e.doqAsync = dlv, end, da
 }
 
+// runStart is when the run began.  overBudget reports that violations are on
+// record and the run has used most of the time the check allows a harness: the
+// remaining network-bound cases are skipped (with a note) so that what has been
+// found is reported instead of being lost to the check's time-out.  It never
+// fires on a run without violations and never changes a verdict.
+var (
+	runStart    = time.Now()
+	budgetNoted bool
+)
+
+func overBudget(o *hlib.Opts, r *hlib.Result) bool {
+	limit := 150 * time.Second
+	if o.Thorough() {
+		limit = 1300 * time.Second
+	}
+	if len(r.Violations) == 0 || time.Since(runStart) < limit {
+		return false
+	}
+	if !budgetNoted {
+		budgetNoted = true
+		r.Notes = append(r.Notes, fmt.Sprintf("run cut short after %s with %d violation signatures on record: the remaining cases were skipped so that the findings are reported within the check's time-out",
+			time.Since(runStart).Round(time.Second), len(r.Violations)))
+	}
+
+	return true
+}
+
 // hangs counts the confirmed hangs (watchdog of a minute); theResult is the run's
 // result, for guard to finish early.
 var (
@@ -831,6 +866,9 @@ type sees struct {
 	// remote: the client's address (text); zoned: it carries an IPv6 zone.
 	remote string
 	zoned  bool
+	// lateWrites: TCP/DoT only, writes the server attempted after it had closed
+	// the connection.
+	lateWrites int
 	// emptyOK: DoH only, HTTP 200 without a body (what net/http sends when the
 	// handler returned without writing, e.g. after a recovered panic).
 	emptyOK bool
@@ -953,6 +991,7 @@ func (e *env) runInner(t string, b []byte, req *dns.Msg, wok bool) (s sees) {
 		if c.closes >= 2 {
 			s.status = stClosed
 		}
+		s.lateWrites = c.lateWrites
 		splitPrefixed(c.out.Bytes(), &s)
 	case "dohpost", "dohget":
 		var r *http.Request
@@ -1687,6 +1726,10 @@ func oracle(r *hlib.Result, t string, b []byte, req *dns.Msg, o outcome, wok boo
 	}
 	if t == "doq" && !s.fin {
 		r.Violate("doq-stream-not-finished", "doq: the server did not close its side of the stream (no STREAM FIN), so the client cannot tell that the response is complete", ci)
+	}
+	if s.lateWrites > 0 {
+		r.Violate("closed-before-answer-"+t, t+": the client sent this frame and then finished its side of the stream; the server closed the connection before the worker of the frame had written "+
+			"its response, and the response was written to the closed connection", ci)
 	}
 	if s.garbage > 0 {
 		r.Violate("garbled-response-"+t, t+": the server wrote bytes that do not decode as a DNS message / frame", ci)
@@ -2430,6 +2473,10 @@ func dnscryptE2ECampaign(o *hlib.Opts, r *hlib.Result, m *hlib.Model, e *env) {
 	isSentinel := func(mm *dns.Msg) bool {
 		return len(mm.Question) == 1 && strings.HasSuffix(mm.Question[0].Name, nestedSuffix)
 	}
+	// stalls counts the cases that ended in the full time-out because the
+	// sentinel's own answer never came (it is a well-formed query: on a healthy
+	// server it always does).
+	stalls := 0
 	// udp sends the case datagram and then a sentinel query; whatever arrives
 	// before (or shortly after) the sentinel's answer is the case's response.
 	udp := func(enc []byte, patient bool) (msgs []*dns.Msg, garbage int) {
@@ -2461,6 +2508,10 @@ func dnscryptE2ECampaign(o *hlib.Opts, r *hlib.Result, m *hlib.Model, e *env) {
 			buf := make([]byte, 70000)
 			k, rerr := c.Read(buf)
 			if rerr != nil {
+				if !seen {
+					stalls++
+				}
+
 				return msgs, garbage
 			}
 			mm := decrypt(buf[:k])
@@ -2495,6 +2546,10 @@ func dnscryptE2ECampaign(o *hlib.Opts, r *hlib.Result, m *hlib.Model, e *env) {
 			_ = c.SetReadDeadline(time.Now().Add(4 * time.Second))
 			var l [2]byte
 			if _, rerr := io.ReadFull(c, l[:]); rerr != nil {
+				if ne, ok := rerr.(net.Error); ok && ne.Timeout() {
+					stalls++
+				}
+
 				return msgs, garbage, status
 			}
 			raw := make([]byte, binary.BigEndian.Uint16(l[:]))
@@ -2514,6 +2569,13 @@ func dnscryptE2ECampaign(o *hlib.Opts, r *hlib.Result, m *hlib.Model, e *env) {
 	}
 	var ps []pending
 	for i := 0; i < n; i++ {
+		if stalls >= 4 || overBudget(o, r) {
+			// Every further case would wait for the whole time-out as well.
+			r.Count("dce2e:ended-early")
+			r.Notes = append(r.Notes, fmt.Sprintf("DNSCrypt end to end: ended after %d of %d cases: the sentinel query that follows every case went without an answer of its own %d times (see the violations)", i, n, stalls))
+
+			break
+		}
 		b, kind := genWire(rng, r)
 		if len(b) > 1200 {
 			continue
@@ -3053,8 +3115,8 @@ func pipelineCampaign(o *hlib.Opts, r *hlib.Result, e *env) {
 				r.Violate("answer-count-"+t, fmt.Sprintf("pipelined %s: id %d answered %d times", t, id, seen[id]), ci)
 			}
 		}
-		if s.garbage > 0 || c.closes != 1 {
-			r.Violate("pipeline-broken-"+t, fmt.Sprintf("pipelined %s: garbage frames %d, closes %d", t, s.garbage, c.closes), ci)
+		if s.garbage > 0 || c.closes != 1 || c.lateWrites > 0 {
+			r.Violate("pipeline-broken-"+t, fmt.Sprintf("pipelined %s: garbage frames %d, closes %d, writes after the server closed the connection %d", t, s.garbage, c.closes, c.lateWrites), ci)
 		}
 		r.Count("pipeline:" + t)
 		r.Case(hex.EncodeToString(in), true)
@@ -3417,6 +3479,20 @@ func bufferCampaign(o *hlib.Opts, r *hlib.Result, e *env) {
 					bg.Add(1)
 					go func() {
 						defer bg.Done()
+						defer func() {
+							// A panic here (e.g. the server's wait group misused because a
+							// connection routine returned before its workers) must not take
+							// the whole run, and what it has found so far, down.
+							if v := recover(); v != nil {
+								nestedBad = fmt.Sprintf("the concurrent client's datagram made the accept path panic: %v", v)
+								if c.wrote != nil {
+									func() {
+										defer func() { _ = recover() }()
+										close(c.wrote)
+									}()
+								}
+							}
+						}()
 						_ = e.plain.VerifC01AcceptUDP(ctx, c)
 					}()
 					select {
@@ -3615,6 +3691,9 @@ func main() {
 		"DNSCrypt is also driven end to end (real ServerDNSCrypt and ameshkov/dnscrypt library on loopback sockets, arbitrary octets sent as encrypted queries over UDP and TCP) and compared with the model including the library's own filter; " +
 		"byte-buffer adversary: with GOMAXPROCS(1) a concurrent client's request is served inside the handler and inside the socket write of the request under test, " +
 		"so a pooled request/response buffer released before its last use is overwritten (foreign id/question/garbled frame) or seen recycled in flight; " +
+		"connection life cycle under real pipelining: on a fake connection that behaves like a socket (blocking reads, a closed connection fails reads and writes) handlers wait until released, " +
+		"frames are sent and released in any order under every pipeline limit, and the client's stream ends (half-close, idle time-out, reset) also while queries are inside the handler - every accepted query must be answered exactly once before the server closes the connection, " +
+		"the whole schedule is compared with the model's transition system (clife); the same live on loopback: TCP shutdown(SHUT_WR), TLS close_notify, idle time-out and Shutdown with pipelined queries in flight, DoQ streams finished before the answer; " +
 		"a case is non-trivial unless it is a well-formed accepted query answered normally; distinct = distinct (wire, outcome)"
 	m := hlib.StartModel(o.Model, "C01")
 	defer m.Close()
@@ -3631,26 +3710,39 @@ func main() {
 		if strings.Contains(only, "wired") {
 			wiredLiveCampaign(o, r, m)
 		}
+		if strings.Contains(only, "lifecycle") {
+			lifecycleCampaign(o, r, m)
+			liveLifecycleCampaign(o, r)
+		}
 		r.Finish()
 
 		return
 	}
-	acceptCampaign(r, m)
-	gridCampaign(o, r, m, e)
-	wireCampaign(o, r, m, e)
-	doqDeliveryCampaign(o, r, m, e)
-	jsonCampaign(o, r, m, e)
-	dohFrontCampaign(o, r, m, e)
-	dnscryptE2ECampaign(o, r, m, e)
-	quicFrameCampaign(o, r, m, e)
-	pipelineCampaign(o, r, e)
-	connCampaign(o, r, m, e)
-	udpLoopCampaign(o, r, m, e)
-	bufferCampaign(o, r, e)
-	truncationCampaign(o, r, e)
-	liveCampaign(o, r)
-	panicCampaign(o, r, m, e)
-	wiredLiveCampaign(o, r, m)
+	for _, campaign := range []func(){
+		func() { acceptCampaign(r, m) },
+		func() { lifecycleCampaign(o, r, m) },
+		func() { gridCampaign(o, r, m, e) },
+		func() { wireCampaign(o, r, m, e) },
+		func() { doqDeliveryCampaign(o, r, m, e) },
+		func() { jsonCampaign(o, r, m, e) },
+		func() { dohFrontCampaign(o, r, m, e) },
+		func() { dnscryptE2ECampaign(o, r, m, e) },
+		func() { quicFrameCampaign(o, r, m, e) },
+		func() { pipelineCampaign(o, r, e) },
+		func() { connCampaign(o, r, m, e) },
+		func() { udpLoopCampaign(o, r, m, e) },
+		func() { bufferCampaign(o, r, e) },
+		func() { truncationCampaign(o, r, e) },
+		func() { liveCampaign(o, r) },
+		func() { liveLifecycleCampaign(o, r) },
+		func() { panicCampaign(o, r, m, e) },
+		func() { wiredLiveCampaign(o, r, m) },
+	} {
+		if overBudget(o, r) {
+			break
+		}
+		campaign()
+	}
 
 	r.Finish()
 }
